@@ -8,8 +8,145 @@ THEMES = (("retransmit", 700, 0, None, 0), ("retransmit_two_origins", None, 0, N
 FILES = ["Props/C17.v"]
 
 
+class _AnswerRace:
+    """`n` requests of ONE origin host were delivered and are answered by `n` application threads at the same time; then the
+    peer repeats every one of them with the T flag.  The node model records an answer in one atomic step; this exploration
+    runs the real Node._record_answer under every interleaving of its source lines among the answering threads with <= max_pre
+    pre-emptions and demands what every sequential order gives (the window is larger than `n`): every repeat is answered
+    5012 by the node and none reaches the application again."""
+    def __init__(self, n):
+        import nodesim as NS
+        from vsim import Sim
+        self.NS, self.n = NS, n
+        self.sim = sim = Sim(seed=1, t0=NS.T0)
+        sim.script_random([77, 12345])
+        self.node = node = sim.node_mod.Node("srv.example.net", "example.net", ip_addresses=["10.0.0.1"], tcp_port=3868)
+        self.reqs = []
+        self.app = app = sim.app_mod.SimpleThreadingApplication(4, is_auth_application=True,
+                                                                request_handler=lambda a, m: self.reqs.append(m))
+        peer = node.add_peer("aaa://cli0.example.net", "example.net")
+        node.add_application(app, [peer])
+        node.start()
+        sim.run()
+        sim.script_random([1000])
+        self.remote = r = sim.connect_in()
+        sim.run()
+        r.feed(NS.build_message(dict(kind="cer", host="cli0.example.net", hbh=1, e2e=1)))
+        sim.run()
+        for k in range(n):
+            r.feed(NS.build_message(dict(kind="req", hbh=0x1001 + k, e2e=0x2001 + k, host="cli0.example.net")))
+        sim.run()
+        r.take_sent()
+
+    def _wire(self):
+        buf, out = self.remote.sent, []
+        while len(buf) >= 20:       # identifiers, R bit and Result-Code from the wire, not through the library's decoder
+            ln = int.from_bytes(buf[1:4], "big")
+            if ln < 20 or len(buf) < ln:
+                break
+            f, rc, i = bytes(buf[:ln]), None, 20
+            while i + 8 <= ln:
+                code, fl, al = int.from_bytes(f[i:i + 4], "big"), f[i + 4], int.from_bytes(f[i + 5:i + 8], "big")
+                if al < 8:
+                    break
+                if code == 268 and not fl & 0x80 and al == 12:
+                    rc = int.from_bytes(f[i + 8:i + 12], "big")
+                i += (al + 3) & ~3
+            out.append([bool(f[4] & 0x80), int.from_bytes(f[12:16], "big"), int.from_bytes(f[16:20], "big"), rc])
+            del buf[:ln]
+        return out
+
+    def launch(self, chooser):
+        sim, NS = self.sim, self.NS
+        self.outcomes = {}
+        self.delivered_first = len(self.reqs)
+        state = {"prev": None}
+
+        def ch(runnable):
+            pick = chooser(list(runnable), state["prev"])
+            state["prev"] = pick
+            return pick
+        sim.line_mode([sim.node_mod.Node._record_answer], ch)
+        for t in range(min(self.n, len(self.reqs))):
+            def submit(t=t):
+                ans = self.app.generate_answer(self.reqs[t], 2001)
+                try:
+                    self.app.send_answer(ans)
+                    self.outcomes[t] = "accepted"
+                except Exception as e:   # noqa
+                    self.outcomes[t] = type(e).__name__
+            sim.spawn(submit, name="S%d" % t)
+        sim.run()
+        sim.line_mode(None)
+        sim.advance(1)
+        sim.run()
+        self.first = self._wire()
+        for k in range(self.n):
+            f = bytearray(NS.build_message(dict(kind="req", hbh=0x3001 + k, e2e=0x2001 + k, host="cli0.example.net")))
+            f[4] |= 0x10        # the T flag, set on the wire
+            self.remote.feed(bytes(f))
+        sim.run()
+        sim.advance(1)
+        sim.run()
+        self.second = self._wire()
+
+    def finish(self):
+        o = dict(outcomes={str(k): v for k, v in self.outcomes.items()}, delivered_first=self.delivered_first,
+                 delivered_again=[m.header.end_to_end_identifier for m in self.reqs[self.delivered_first:]],
+                 answers=self.first, repeats_answered=self.second, deaths=list(self.sim.thread_deaths))
+        self.sim.shutdown()
+        return o
+
+
+def _judge_answers(n):
+    def judge(o):
+        ok = (o["delivered_first"] == n and len(o["outcomes"]) == n and all(v == "accepted" for v in o["outcomes"].values())
+              and sorted(a[1:] for a in o["answers"] if not a[0]) == [[0x1001 + k, 0x2001 + k, 2001] for k in range(n)]
+              and not o["delivered_again"] and not o["deaths"]
+              and sorted(a[1:] for a in o["repeats_answered"] if not a[0]) == [[0x3001 + k, 0x2001 + k, 5012] for k in range(n)])
+        if ok:
+            return None
+        return ("duplicate-rejected", o,
+                "every T-flagged repeat of an answered request is answered 5012 by the node and not delivered again",
+                "answers sent by several application threads at the same time: a T-flagged repeat of a request the node had "
+                "answered was delivered to the application again / not answered 5012")
+    return judge
+
+
+def _submitter(name):
+    return name.startswith("S")
+
+
+def concurrent_answers(run):
+    import racelib
+    total = 0
+    plans = [(2, 2, 1500), (3, 2, 2500), (4, 1, 1500)] if run.tier == "thorough" else [(2, 1, 200), (3, 1, 250)]
+    for n, pre, cap in plans:
+        if run.violations:
+            break
+        total += racelib.explore(run, lambda: _AnswerRace(n), _judge_answers(n),
+                                 "answers to one origin host sent by several threads at the same time", pre, cap,
+                                 extra_case={"answers": n}, only=_submitter)
+    run.extra["concurrent_answer_schedules"] = total
+
+
 def check(run):
+    orig_obligations = run.obligations
+
+    def obligations_then_race(files):
+        out = orig_obligations(files)
+        concurrent_answers(run)
+        return out
+    run.obligations = obligations_then_race
     return nodecheck.run(run, "C17", FILES, PROFILE, W, N_QUICK, N_THOROUGH, LENGTH, themes=THEMES)
 
 
-replay = nodecheck.replay_generic
+def replay(r):
+    c = r.get("case", {})
+    if str(c.get("scenario", "")).startswith("answers to one origin host"):
+        import racelib
+        n = int(c["answers"])
+        o = racelib.replay_schedule(lambda: _AnswerRace(n), c["schedule"], only=_submitter)
+        print("replay:", {k: o[k] for k in ("outcomes", "delivered_again", "repeats_answered", "deaths")})
+        return _judge_answers(n)(o) is None
+    return nodecheck.replay_generic(r)
